@@ -18,6 +18,7 @@ import Ymq.Lemmas.WiedemannPrimes
 import Ymq.Lemmas.WiedemannKer
 import Ymq.Lemmas.WiedemannKerAlg
 import Ymq.Props.C06
+import Mathlib.Tactic.NormNum.Prime
 
 namespace Ymq.C19Wied
 open Ymq.BM Ymq.Wied Polynomial Matrix
@@ -246,6 +247,7 @@ theorem detz_early_termination_witness :
     (mkMat advMat).bind (detz Ymq.Mg64.isprime64 Ymq.Arith.invMod64) = some 0 := by
   rw [adv_valid]
   simp only [Option.bind_some, detz, adv_primes, Option.bind_eq_bind]
+  rw [show advPrimes.length + 1 = 16 from by decide]
   exact adv_loop
 
 
@@ -261,6 +263,7 @@ theorem detz_early_termination_witness_closed :
   refine ⟨adv2_det, advDet_ne_zero, ?_⟩
   rw [adv2_valid]
   simp only [Option.bind_some, detz, adv2_primes, Option.bind_eq_bind]
+  rw [show advPrimes.length + 1 = 16 from by decide]
   exact adv2_loop
 
 /-! ### `select_crtprimes` -/
@@ -439,5 +442,195 @@ theorem ker_p256_singular (rows m : Mat) (hm : mkMat rows = some m) (hn : 1 ≤ 
     by_cases ha : (v.any (· != 0)) = true
     · simp [ha]
     · simp [ha]
+
+/-! ### non-vacuity: the hypotheses of every theorem above hold on concrete instances -/
+
+section NonVacuity
+set_option profiler true
+set_option profiler.threshold 3000
+
+/-- `[[1, 2], [3, 5]]`: determinant `-1`, norm 8 -/
+def exM : Mat := [[(0, 1), (1, 2)], [(0, 3), (1, 5)]]
+/-- `[[1, 2], [2, 4]]`: singular -/
+def exK : Mat := [[(0, 1), (1, 2)], [(0, 2), (1, 4)]]
+/-- `x²` divides the characteristic polynomial -/
+def exN : Mat := [[(0, 1), (1, 1), (2, 1)], [], []]
+/-- a 1 × 1 matrix `(1)` written with two cancelling entries `±2^52`: norm `2^52 + 1`, so that the
+moduli of `select_crtprimes` are small enough for a primality test by trial division -/
+def exB : Mat := [[(0, 1), (0, 4503599627370496), (0, -4503599627370496)]]
+/-- a primality test that is sound by construction: it accepts eight numbers, all prime -/
+def exIsprime : ℕ → Option Bool :=
+  fun q => some (decide (q ∈ [2039, 1979, 1949, 1889, 1709, 1619, 1559, 1499]))
+
+local instance exFact7 : Fact (Nat.Prime 7) := ⟨by decide⟩
+
+private theorem exM_weights (Bd : Int) (h : 8 * Bd < I63) (h0 : 0 ≤ Bd) :
+    ∀ r ∈ exM, posW r * Bd < I63 ∧ negW r * Bd < I63 := by
+  have h63 : (0 : Int) < I63 := by norm_num [I63]
+  intro r hr
+  simp only [exM, List.mem_cons, List.mem_nil_iff, or_false] at hr
+  rcases hr with rfl | rfl <;> norm_num [posW, negW, sumSel] <;> constructor <;> linarith
+
+/-- `mulp_spec`: hypotheses satisfied by `exM`, `p = 7`, `v = (1, 2)`, `Bd = 6` (the theorem
+applies); the conclusion evaluated: `M v = (5, 13) ≡ (5, 6)`. -/
+example : ∃ out, mulpLane exM 7 [1, 2] = some out ∧ out.length = exM.length := by
+  obtain ⟨out, h1, h2, _⟩ := mulp_spec 7 (by decide) (by norm_num [I63]) exM [1, 2] rfl
+    (by decide) 6 (by norm_num) (fun j => by rcases j with _ | _ | j <;> simp)
+    (exM_weights 6 (by norm_num [I63]) (by norm_num))
+  exact ⟨out, h1, h2⟩
+
+example : mulpLane exM 7 [1, 2] = some [5, 6] := by decide +kernel
+
+/-- `detp4_spec_full_complexity`, `detp4_false_zero_iff_deficient`: their hypotheses (a Krylov
+sequence of a matrix over `ZMod p`, reduced, with two non-zero terms; `det ≠ 0` for the second)
+hold for `M = exM mod 7`, `w = e_0`, `v = (1, 2)`: the sequence is `1, 5, 3, 2`. -/
+example : ∃ seq : List ℕ, seq.length = 2 * 2 ∧ (∀ x ∈ seq, x < 7) ∧
+    (∀ k, k < 2 * 2 → ((seq.getD k 0 : ℕ) : ZMod 7) =
+      krylovSeq (matOf 7 2 exM) (e0 7 2) (colOf 7 2 (startVec 2 0 1)) k) ∧
+    TwoTerms seq ∧ (matOf 7 2 exM).det ≠ 0 ∧ (7 % 2 = 1 ∧ 7 < 2 ^ 63 ∧ 1 ≤ 2) := by
+  obtain ⟨seq, k1, k2, k3, k4⟩ := krylov_model_spec (p := 7) 2 (by decide) exM rfl (by decide)
+    (by decide) (by norm_num [I63]) 65536 (by norm_num) (by norm_num)
+    (exM_weights 65536 (by norm_num [I63]) (by norm_num))
+  have hk : krylov exM 7 (2 * exM.length + 1) (startVec exM.length 0 1) [] = some [1, 5, 3, 2] := by
+    decide +kernel
+  have hs : seq = [1, 5, 3, 2] := Option.some.inj (k1.symm.trans hk)
+  subst hs
+  refine ⟨[1, 5, 3, 2], k2, k3, k4, ⟨0, 1, by decide, by decide, by decide⟩, ?_, by decide,
+    by norm_num, by decide⟩
+  rw [Matrix.det_fin_two]
+  simp [matOf, exM]
+  decide
+
+/-- the conclusion of `detp4_spec_full_complexity` on that instance, by evaluation:
+the lane returns `6 ≡ -1 = det` -/
+example : bm 7 [1, 5, 3, 2] = some [1, 1, 6, 0] ∧ laneDet 2 7 [1, 5, 3, 2] = some 6 := by
+  decide +kernel
+
+/-- `detp4_lane_of_model` / `detp4_lane_of_norm`: hypotheses satisfied by `exM`, `p = 7`
+(`norm · max(p, 65537) = 8 · 65537 ≤ 2^63`); the theorem applies. -/
+example : ∃ seq, krylov exM 7 (2 * exM.length + 1) (startVec exM.length 0 1) [] = some seq ∧
+    seq.length = 2 * 2 ∧
+    (TwoTerms seq → ∃ out, bm 7 seq = some out ∧
+      (out.getD 2 0 ≠ 0 → ∃ d, laneDet 2 7 seq = some d ∧ d < 7 ∧
+        (d : ZMod 7) = (matOf 7 2 exM).det) ∧
+      (out.getD 2 0 = 0 → laneDet 2 7 seq = some 0)) :=
+  detp4_lane_of_norm 7 (by decide) (by norm_num) 2 (by decide) exM rfl (by decide)
+    (by
+      have : norm exM = 8 := by decide +kernel
+      rw [this]; norm_num)
+
+example : ∃ seq, krylov exM 7 (2 * exM.length + 1) (startVec exM.length 0 1) [] = some seq ∧
+    seq.length = 2 * 2 ∧
+    (TwoTerms seq → ∃ out, bm 7 seq = some out ∧
+      (out.getD 2 0 ≠ 0 → ∃ d, laneDet 2 7 seq = some d ∧ d < 7 ∧
+        (d : ZMod 7) = (matOf 7 2 exM).det) ∧
+      (out.getD 2 0 = 0 → laneDet 2 7 seq = some 0)) :=
+  detp4_lane_of_model 7 (by decide) (by norm_num) 2 (by decide) exM rfl (by decide) 65536
+    (by norm_num) (by norm_num) (exM_weights 65536 (by norm_num [I63]) (by norm_num))
+
+/-- the eight moduli `select_crtprimes` picks for `exM` (norm 8: the primes `30k - 1` below 2^60) -/
+def exPrimes : List ℕ := [1152921504606846869, 1152921504606846719, 1152921504606846419,
+  1152921504606846269, 1152921504606846179, 1152921504606845849, 1152921504606845789,
+  1152921504606845399]
+
+set_option maxRecDepth 100000 in
+private theorem exM_sel : selectPrimes Ymq.Mg64.isprime64 exM = some exPrimes := by decide +kernel
+
+set_option maxRecDepth 100000 in
+private theorem exM_b1 : detp exM [1152921504606846869, 1152921504606846719,
+    1152921504606846419, 1152921504606846269] = some [1152921504606846868,
+    1152921504606846718, 1152921504606846418, 1152921504606846268] := by decide +kernel
+
+set_option maxRecDepth 100000 in
+private theorem exM_b2 : detp exM [1152921504606846179, 1152921504606845849,
+    1152921504606845789, 1152921504606845399] = some [1152921504606846178,
+    1152921504606845848, 1152921504606845788, 1152921504606845398] := by decide +kernel
+
+/-- `detz_of_detp_partial`: all its hypotheses hold for `exM` (`d = det = -1`) with the real
+moduli of `select_crtprimes`, the real lanes (residues `q - 1`) and `inv = invMod64`; the theorem
+gives `detz = -1`, and so does the evaluation of the model. -/
+example : detz Ymq.Mg64.isprime64 Ymq.Arith.invMod64 exM = some (-1) :=
+  detz_of_detp_partial Ymq.Mg64.isprime64 Ymq.Arith.invMod64 Ymq.C19.invMod64_invSpec exM (-1)
+    1152921504606846869 1152921504606846719 1152921504606846419 1152921504606846269
+    1152921504606846179 1152921504606845849 1152921504606845789 1152921504606845399 []
+    1152921504606846868 1152921504606846718 1152921504606846418 1152921504606846268
+    1152921504606846178 1152921504606845848 1152921504606845788 1152921504606845398
+    exM_sel exM_b1 exM_b2 (by decide +kernel) (by decide +kernel)
+    ⟨1, by norm_num⟩ ⟨1, by norm_num⟩ ⟨1, by norm_num⟩ ⟨1, by norm_num⟩
+    ⟨1, by norm_num⟩ ⟨1, by norm_num⟩ ⟨1, by norm_num⟩ ⟨1, by norm_num⟩
+    (by norm_num) (by norm_num)
+
+set_option maxRecDepth 100000 in
+example : detz Ymq.Mg64.isprime64 Ymq.Arith.invMod64 exM = some (-1) := by decide +kernel
+
+private theorem exIsprime_sound : IsprimeSound exIsprime := by
+  intro q _ h
+  simp only [exIsprime, Option.some.injEq, decide_eq_true_eq, List.mem_cons, List.mem_nil_iff,
+    or_false] at h
+  rcases h with rfl | rfl | rfl | rfl | rfl | rfl | rfl | rfl <;> norm_num
+
+set_option maxRecDepth 100000 in
+private theorem exB_sel : selectPrimes exIsprime exB =
+    some [2039, 1979, 1949, 1889, 1709, 1619, 1559, 1499] := by decide +kernel
+
+set_option maxRecDepth 100000 in
+private theorem exB_b1 : detp exB [2039, 1979, 1949, 1889] = some [1, 1, 1, 1] := by
+  decide +kernel
+
+set_option maxRecDepth 100000 in
+private theorem exB_b2 : detp exB [1709, 1619, 1559, 1499] = some [1, 1, 1, 1] := by
+  decide +kernel
+
+/-- `select_crtprimes_spec`: its hypotheses (a sound primality test, a returned selection) hold
+for `exB` with the trial-division test; the theorem applies. (For `isprime64` soundness is the
+content of C06's three literature hypotheses, see `isprime64_isprimeSound`.) -/
+example : [2039, 1979, 1949, 1889, 1709, 1619, 1559, 1499].Pairwise Nat.Coprime ∧
+    ∀ q ∈ [2039, 1979, 1949, 1889, 1709, 1619, 1559, 1499],
+      q.Prime ∧ q * norm exB < 2 ^ 63 ∧ q < 2 ^ 63 :=
+  let h := select_crtprimes_spec exIsprime exIsprime_sound exB _ exB_sel
+  ⟨h.2.2.1, h.2.2.2⟩
+
+/-- `detz_of_detp_selected_partial`: all hypotheses hold for `exB` (`d = det = 1`); the theorem
+gives `detz = 1`. -/
+example : detz exIsprime Ymq.Arith.invMod64 exB = some 1 :=
+  detz_of_detp_selected_partial exIsprime exIsprime_sound Ymq.Arith.invMod64
+    Ymq.C19.invMod64_invSpec exB 1 2039 1979 1949 1889 1709 1619 1559 1499 [] 1 1 1 1 1 1 1 1
+    exB_sel exB_b1 exB_b2
+    ⟨0, by norm_num⟩ ⟨0, by norm_num⟩ ⟨0, by norm_num⟩ ⟨0, by norm_num⟩
+    ⟨0, by norm_num⟩ ⟨0, by norm_num⟩ ⟨0, by norm_num⟩ ⟨0, by norm_num⟩
+    (by norm_num) (by norm_num)
+
+set_option maxRecDepth 100000 in
+private theorem exK_ker : kerP256 exK 7 [3, 5] = some (some [5, 1]) := by decide +kernel
+
+/-- `ker_p256_sound`: hypotheses satisfied by the singular `exK`, `p = 7`, start vector `(3, 5)`:
+the model returns `(5, 1)`, and the theorem gives `M · (5, 1) = 0` over `ZMod 7`. -/
+example : [5, 1].length = exK.length ∧ (∀ j, [5, 1].getD j 0 < 7) ∧ (∃ x ∈ [5, 1], x ≠ 0) ∧
+    matOf 7 exK.length exK * colOf 7 exK.length [5, 1] = 0 :=
+  ker_p256_sound exK exK (by decide) 7 (by norm_num) [3, 5] (by decide) [5, 1] exK_ker
+
+set_option maxRecDepth 100000 in
+/-- `ker_p256_none_iff`: both sides are inhabited (`exN`: `x²` divides the characteristic
+polynomial, the answer is `None`). -/
+example : kerP256 exN 7 [1, 2, 3] = some none := by decide +kernel
+
+set_option maxRecDepth 100000 in
+private theorem exK_kry :
+    krylovBig (kerWidth exK 7) exK 7 (2 * exK.length + 1) (startVec exK.length 0 1) [] =
+      some [1, 5, 4, 6] := by decide +kernel
+
+/-- `ker_p256_singular`: hypotheses satisfied by `exK`, `p = 7` (determinant `1·4 - 2·2 = 0`,
+Krylov sequence `1, 5, 4, 6`); the theorem applies. -/
+example : ∃ cp, bmBig 7 [1, 5, 4, 6] = some cp ∧ cp.getD exK.length 0 = 0 ∧
+    (cp.getD (exK.length - 1) 0 = 0 → kerP256 exK 7 [3, 5] = some none) ∧
+    (cp.getD (exK.length - 1) 0 ≠ 0 → ∀ v z,
+      hornerBig (kerWidth exK 7) exK 7 cp [3, 5] (exK.length - 1) 1 [3, 5] = some v →
+      mulpBig (kerWidth exK 7) exK 7 v = some z →
+      kerP256 exK 7 [3, 5] = if v.any (· != 0) then some (some v) else none) :=
+  ker_p256_singular exK exK (by decide) (by decide) 7 (by norm_num)
+    (by show (matOf 7 2 exK).det = 0; rw [Matrix.det_fin_two]; simp [matOf, exK]; decide) [1, 5, 4, 6] exK_kry
+    ⟨0, 1, by decide, by decide, by decide⟩ [3, 5] rfl (by decide)
+
+end NonVacuity
 
 end Ymq.C19Wied
